@@ -826,7 +826,24 @@ class QvmCpu:
                       expected=a.type,
                       got=b.type)
 
-        result = a.value ** b.value
+        if a.type.is_integral and abs(a.value) > 1 and b.value > 64:
+            # certainly too big for a LONG; do not even try to compute
+            # the (possibly astronomically large) integer power
+            self.trap(TrapCode.INVALID_CELL_VALUE,
+                      type=a.type,
+                      value=f'{a.value} ^ {b.value}')
+
+        try:
+            result = a.value ** b.value
+        except OverflowError:
+            self.trap(TrapCode.INVALID_CELL_VALUE,
+                      type=a.type,
+                      value=f'{a.value} ^ {b.value}')
+
+        if isinstance(result, complex):
+            self.trap(TrapCode.INVALID_OPERAND_VALUE,
+                      desc='negative base with a fractional exponent')
+
         self.push(a.type, result)
 
     def _exec_frame(self, params_size, local_vars_size):
@@ -1359,6 +1376,8 @@ class QvmCpu:
             self.trap(TrapCode.INVALID_OPERAND_VALUE)
 
         if char.type == CellType.INTEGER:
+            if char.value < 0 or char.value > 255:
+                self.trap(TrapCode.INVALID_OPERAND_VALUE)
             char = bytes([char.value]).decode('cp437')
         elif char.type != CellType.STRING:
             self.trap(TrapCode.TYPE_MISMATCH,
